@@ -618,8 +618,6 @@ class ConfigRun(object):
 
     def op_second_controller_early(self):
         self.early_changes_left -= 1
-        if not self.sim.gate('conf-changed-during-bootstrap'):
-            return
         self.changes_left += 1
         self.sim.probe('conf-changed-during-bootstrap')
         before = dict((o.name, list(o.co.values) if o.co.values is not None else None) for o in self.order)
